@@ -100,6 +100,8 @@ class Executor:
         self._init_done = False
         self.entered = set()
         self.ite_merging = True
+        self.concretise_shifts = False
+        self.lazy_forks = False
         self._returned = False
 
     # ==================================================================
@@ -264,6 +266,8 @@ class Executor:
                     neg = mk('slt', 0, y, 0, yw)
                     if not self.require(st, self.store.bnot(neg), 'negative shift amount', pos):
                         return None
+                if y.__class__ is Term and self.concretise_shifts:
+                    y = self.conc(st, y, 'shift count')
                 if y.__class__ is int:
                     yy = y if y < w else w
                 else:
@@ -515,6 +519,10 @@ class Executor:
             st.lastj = v.order
             return pt, st.extras, pf, st.extras
         ncond = self.store.bnot(cond)
+        if self.lazy_forks and cond.hard:
+            # kernel mode: do not ask the solver whether each side is feasible (these are the hard
+            # queries); an infeasible path only yields a vacuously true obligation later
+            return st.pc, st.extras + (cond,), st.pc, st.extras + (ncond,)
         rt = self.solver.check(st.pc, st.extras, (cond,))
         rf = self.solver.check(st.pc, st.extras, (ncond,))
         if rt == 'unknown' or rf == 'unknown':
@@ -1273,6 +1281,9 @@ class Executor:
                 pc = self.mdd.and_byte(st.pc, v.order, m)
                 if pc is not None:
                     alts.append((value, pc, st.extras))
+        elif self.lazy_forks and t.hard and self._small_range(t) is not None:
+            lo, hi = self._small_range(t)
+            alts = [(v, st.pc, st.extras + (self.store.mk('eq', 0, t, v),)) for v in range(lo, hi + 1)]
         else:
             alts = []
             blocked = []
@@ -1305,6 +1316,15 @@ class Executor:
     # NOTE: forks created inside an instruction re-execute that instruction from
     # its start; `concretise` therefore records its decision in st.nondet and the
     # callers below consult it first.
+    def _small_range(self, t):
+        try:
+            _, lo, hi, _ = self.solver.lia.conv(t)
+        except Exception:
+            return None
+        if hi - lo <= 8:
+            return lo, hi
+        return None
+
     def conc(self, st, t, what):
         if t.__class__ is not Term:
             return t
